@@ -276,6 +276,7 @@ class World:
             if work_dir is None:
                 raise HarnessError("real OpenQL world needs a work_dir")
             os.makedirs(work_dir, exist_ok=True)
+            self.real_work_dir = work_dir
             self.fs.files[os.path.join(root, "config_openql_output.yaml")] = (
                 f"openql_output_directory: {work_dir}/out\n"
                 f"openql_platform_file_path: {work_dir}/platform.json\n"
